@@ -29,11 +29,16 @@ func MasterVolume(channel byte, vol uint16) []byte {
 	r.SubID1 = 0x04
 	r.SubID2 = 0x01
 
-	/*
-		TODO: parse the bits 0 to 6 and 7 to 13 of a 14-bit volume
-	*/
+	// the volume is a 14-bit value
+	if vol > 0x3FFF {
+		vol = 0x3FFF
+	}
 
-	return r.SysEx()
+	bt := r.SysEx()
+	bt = bt[:len(bt)-1] // strip the 0xF7
+
+	// bits 0 to 6 first, then bits 7 to 13
+	return append(bt, byte(vol&0x7F), byte(vol>>7), 0xF7)
 }
 
 /*
